@@ -179,6 +179,51 @@ theorem parseTpl_app_arity (segs : List (Bytes × Nat)) (hs : SegsOk segs) (tail
   simp only [Int.ofNat_eq_natCast] at hm
   simp [hm]
 
+/-! ## keyword placeholders `{key}` -/
+
+theorem tplScan_inside (k : Bytes) (hk : ∀ c ∈ k, c.toNat ≠ Gen.tplClose) (cur : Bytes) (acc : TplAcc) (rest : Bytes) :
+    tplScan true cur acc (k ++ UInt8.ofNat Gen.tplClose :: rest) =
+      match tplPlaceholder acc (cur.reverse ++ k) with
+      | .error e => .error e
+      | .ok a' => tplScan false [] a' rest := by
+  have hcl : (UInt8.ofNat Gen.tplClose).toNat = Gen.tplClose := by decide
+  induction k generalizing cur with
+  | nil =>
+    simp only [List.nil_append, tplScan, if_true, hcl, List.append_nil]
+    cases tplPlaceholder acc cur.reverse <;> rfl
+  | cons c cs ih =>
+    have hc := hk c (by simp)
+    simp only [List.cons_append, tplScan, if_true, hc, if_false]
+    rw [ih (fun x hx => hk x (by simp [hx]))]
+    simp
+
+/-- `a{key}b` : a keyword placeholder (non-empty, not all digits, no `}` inside; `{` inside is allowed) -/
+theorem parseTpl_keyword (a : Bytes) (ha : BraceFree a) (k : Bytes) (hk : ∀ c ∈ k, c.toNat ≠ Gen.tplClose)
+    (hnd : k.any (fun c => Gen.tplNotDigit c.toNat) = true) (b : Bytes) (hb : BraceFree b) :
+    parseTpl (a ++ UInt8.ofNat Gen.tplOpen :: (k ++ UInt8.ofNat Gen.tplClose :: b)) false =
+      .ok (⟨[a, b], [0], [k]⟩, 0) := by
+  have ho : (UInt8.ofNat Gen.tplOpen).toNat = Gen.tplOpen := by decide
+  have hne : k.isEmpty = false := by
+    cases k with
+    | nil => simp at hnd
+    | cons c cs => rfl
+  unfold parseTpl
+  rw [tplScan_text a ha]
+  simp only [tplScan, Bool.false_eq_true, if_false, ho, if_true]
+  rw [tplScan_inside k hk]
+  simp only [List.reverse_nil, List.nil_append, tplPlaceholder, hne, hnd, if_true, Bool.false_eq_true, if_false]
+  rw [tplScan_tail b hb]
+  simp
+
+/-- instantiating `a{key}b`: the keyword parameter of this call wins over the `set_value` helper; unknown keys vanish -/
+theorem writeTpl_keyword (a k b : Bytes) (params : List Bytes) (helpers overrides : List (Bytes × Bytes)) :
+    writeTpl ⟨[a, b], [0], [k]⟩ params helpers overrides =
+      .ok (a ++ (match lookupKV overrides k with
+                 | some v => v
+                 | none => (lookupKV helpers k).getD []) ++ b) := by
+  simp only [writeTpl, writeTpl.go, if_true, List.headD_cons, List.nil_append, List.drop_one, List.tail_cons, List.append_nil]
+  cases lookupKV overrides k <;> simp
+
 /-! ## map upwards, dispatch downwards -/
 
 theorem route_fuel_irrelevant (rx : Rx) (req : Option Bytes) :
